@@ -46,6 +46,11 @@ fn verif_unreachable_rust_decimal(_num: i128, scale: u32) -> Result<rust_decimal
 }
 
 
+fn x_unreachable_from_utf8(_v: &[u8]) -> Result<&str, std::str::Utf8Error> {
+	assert!(false, "OBL frame.string_arm_not_entered_for_non_string_node");
+	Ok("")
+}
+
 macro_rules! decimal_fixed_i128 {
 	($name:ident, $size:expr, $inlen:expr) => {
 		#[kani::proof]
@@ -111,25 +116,24 @@ decimal_fixed_i128!(x03_decimal_fixed17_i128, 17, 18);
 
 
 macro_rules! decimal_bytes_i128 {
-	($name:ident, $l:expr) => {
+	($name:ident, $l:expr, $avail:expr) => {
 		#[kani::proof]
 		#[kani::unwind(19)]
 		#[kani::stub(alloc::fmt::format, stub_format)]
 		#[kani::stub(rust_decimal::Decimal::try_from_i128_with_scale, verif_unreachable_rust_decimal)]
+		#[kani::stub(core::str::from_utf8, x_unreachable_from_utf8)]
 		fn $name() {
 			static DB: SchemaNode<'static> = decimal_bytes_node(0);
-			let mut buf: [u8; $l + 2] = kani::any();
-			buf[0] = (2 * $l) as u8; // the one-byte zig-zag length prefix of L
-			let len: usize = kani::any();
-			kani::assume(len >= 1 && len <= $l + 2);
-			let input = &buf[..len];
-			let mut st = state_over(&DB, input);
+			// [one-byte zig-zag length prefix of L][AVAIL symbolic bytes]
+			let mut buf: [u8; 1 + $avail] = kani::any();
+			buf[0] = (2 * $l) as u8;
+			let mut st = state_over(&DB, &buf[..]);
 			let r = <i128 as Deserialize>::deserialize(st.deserializer());
-			let consumed = len - remaining(&mut st.reader);
+			let consumed = 1 + $avail - remaining(&mut st.reader);
 			if $l > 16 {
 				assert!(r.is_err(), "OBL C04.decimal.length_over_16_is_err");
-			} else if len - 1 >= $l {
-				assert!(matches!(r, Ok(v) if v == spec_twos_complement(&input[1..1 + $l])), "OBL C03.decimal.value_is_sign_extended_big_endian_payload");
+			} else if $avail >= $l {
+				assert!(matches!(r, Ok(v) if v == spec_twos_complement(&buf[1..1 + $l])), "OBL C03.decimal.value_is_sign_extended_big_endian_payload");
 				assert!(consumed == 1 + $l, "OBL C03.decimal.consumes_prefix_plus_payload");
 			} else {
 				assert!(r.is_err(), "OBL C03.decimal.payload_cut_short_is_err");
@@ -146,7 +150,7 @@ macro_rules! decimal_bytes_i128 {
 //@   fn: f
 //@   domain: d
 //@   post: p
-decimal_bytes_i128!(x03_decimal_bytes0_i128, 0);
+decimal_bytes_i128!(x03_decimal_bytes0_i128, 0, 1);
 
 //@ harness: x03_decimal_bytes2_i128
 //@   props: XDEV
@@ -155,7 +159,7 @@ decimal_bytes_i128!(x03_decimal_bytes0_i128, 0);
 //@   fn: f
 //@   domain: d
 //@   post: p
-decimal_bytes_i128!(x03_decimal_bytes2_i128, 2);
+decimal_bytes_i128!(x03_decimal_bytes2_i128, 2, 3);
 
 //@ harness: x03_decimal_bytes16_i128
 //@   props: XDEV
@@ -164,7 +168,7 @@ decimal_bytes_i128!(x03_decimal_bytes2_i128, 2);
 //@   fn: f
 //@   domain: d
 //@   post: p
-decimal_bytes_i128!(x03_decimal_bytes16_i128, 16);
+decimal_bytes_i128!(x03_decimal_bytes16_i128, 16, 17);
 
 //@ harness: x03_decimal_bytes17_i128
 //@   props: XDEV
@@ -173,7 +177,16 @@ decimal_bytes_i128!(x03_decimal_bytes16_i128, 16);
 //@   fn: f
 //@   domain: d
 //@   post: p
-decimal_bytes_i128!(x03_decimal_bytes17_i128, 17);
+decimal_bytes_i128!(x03_decimal_bytes17_i128, 17, 18);
+
+//@ harness: x03_decimal_bytes2_cut
+//@   props: XDEV
+//@   tier: quick
+//@   kind: complete
+//@   fn: f
+//@   domain: d
+//@   post: p
+decimal_bytes_i128!(x03_decimal_bytes2_cut, 2, 1);
 
 //@ harness: x03_decimal_bytes_negative_len
 //@   props: XDEV
